@@ -15,7 +15,7 @@ RecOk(r) == LET v == Verdict(r.prog) IN
             v = "undef" \/ (IF v = "ok" THEN r.builds = "ok" ELSE r.builds = "builderror")
 
 \* statement kinds occurring in a body, in a fixed order (root-cause key for the statement-level families)
-KindOrder == <<"var", "const", "define", "assign", "opassign", "incdec", "expr", "go", "defer", "send", "if", "for", "forL", "switch",
+KindOrder == <<"var", "const", "typedecl", "define", "assign", "opassign", "incdec", "expr", "go", "defer", "send", "if", "for", "forL", "switch",
                "switchL", "tswitch", "select", "selectL", "return", "break", "breakL", "continue", "continueL", "block", "closure", "use">>
 RECURSIVE KindsOf(_)
 KindsOf(ss) ==
